@@ -71,7 +71,8 @@ for d in sorted(os.listdir(os.path.join(HERE, "seeded"))):
 out.append(f"\n{caught} of {n} kept changes are caught by at least one check in the last matrix run. Not caught: own "
            "equivalent/benign controls (`own-cycle-weak-always-resolves`, `own-self-step-until-guard`, "
            "`own-interval-add-ext`, `own-initial-event-tiers`, `own-stop-only-first`) whose change cannot alter any "
-           "observable behaviour on the current tree.\n")
+           "observable behaviour on the current tree; and `C14-r10m2`, which was caught when it was ingested and has since been "
+           "neutralised by the repair c091d82 (its own demonstration passes with the patch on the current tree).\n")
 block = "\n".join(out)
 p = os.path.join(HERE, "DESIGN.md")
 s = open(p).read()
